@@ -13,6 +13,7 @@
     the model or from the generated tables. *)
 From Coq Require Import ZArith List Bool String.
 From V Require Import Base.Int Base.IO Spec.Gregorian.
+From V Require Judge.C09.
 Import ListNotations.
 Open Scope Z_scope.
 
@@ -142,6 +143,13 @@ Definition judge (op : bytes) (args : list val) (out : val) : verdict :=
                 | _, _ => JSkip end
     | _ => JSkip end
   else if op_is op "z.nutc" then z_1 (fun u f _ => enc_naive u f) args out
+  else if op_is op "z.show" then
+    (* formatting acts on the wall-clock reading (also in the one-day headroom): the documented
+       Display / Debug text of a zone-aware value, as specified for C09 *)
+    match args with
+    | [v; VInt form] => C09.judge_show 3 form v out
+    | _ => JSkip
+    end
   else if op_is op "z.nlocal" then
     z_1 (fun u f off => if in_rng (u + off) then enc_naive (u + off) f else VPanic) args out
   else if op_is op "z.acc" then z_1 (fun u f off => exp_acc (u + off) f) args out
